@@ -335,6 +335,12 @@ def p_long(r, b, shape, k=0, pre=0, mode="line"):
         body = fill(r, b - k - base) + MARK + fill(r, t) + b"\nkept\n"
     elif shape == "double-straddle":
         body = fill(r, 2 * b - k - base) + MARK + fill(r, t) + b"\nkept\n"
+    elif shape == "straddle-long-tail":
+        # ... and the line goes on, without a newline, for more than two further
+        # pieces (a join between two newline-free pieces that is never examined)
+        body = fill(r, b - k - base) + MARK + fill(r, 2 * b + t + 17) + b"\nkept\n"
+    elif shape == "straddle-long-tail-unterminated":
+        body = b"first\n" + fill(r, b - k - 6) + MARK + fill(r, 2 * b + t + 17)
     elif shape == "late":            # marker well after the boundary
         body = fill(r, b + x) + MARK + fill(r, t) + b"\nkept line\n"
     elif shape == "double-late":     # ... and after twice the boundary
@@ -430,6 +436,13 @@ def long_lines(r, seed, tier):
                 add(b, "double-straddle", k=k, pre=(k + seed) % 5)
         for i, sh in enumerate(LONG_SHAPES):
             add(b, sh, k=1 + (i + seed) % 6, pre=(i + seed) % 5 if i % 2 else 0)
+    # long tails behind a straddling marker
+    for b in (8192, 65536):
+        for k in range(1, 7):
+            if thorough or (k + seed) % 2 == 0:
+                add(b, "straddle-long-tail", k=k)
+                add(b, "straddle-long-tail", k=k, pre=1 + (k + seed) % 4, mode="file")
+        add(b, "straddle-long-tail-unterminated", k=3)
     # 64 KiB: everything once
     b = 65536
     for k in range(8):
